@@ -170,6 +170,16 @@ class FakeSession:
         self.closed = False
 
     def cmd_output(self, cmd, *a, **kw):
+        # fault: a cached session has gone bad (the health check of get_session times out, a new login follows)
+        sim = CURRENT["sim"]
+        p = sim.families.get("p_bad_session", 0.0) if sim is not None else 0.0
+        if p:
+            k = sim.session_checks.get(self.wid, 0)
+            sim.session_checks[self.wid] = k + 1
+            if sim.plan.chance(f"badsession/{sim.epoch}/{self.wid}/{k}", p):
+                from aexpect.exceptions import ShellTimeoutError
+                sim.fault("bad-session")
+                raise ShellTimeoutError(cmd, "")
         return "Thu Jan  1 00:00:00 UTC 1970"
 
     def close(self):
@@ -229,6 +239,7 @@ class Sim:
         self.sessions = {}
         self.workers_by_addr = {}
         self.workers_by_host = {}
+        self.session_checks = {}
         self.monitors = []
         self.families = scenario.get("families", {})
         self.assigned = []      # (serial, uid, name, status) per simulated result
